@@ -308,6 +308,9 @@ def run(ctx: lib.Ctx) -> None:
         t = V.gen_type(rng, rng.randrange(0, depth), allow_never=False)
         k = rng.randrange(2, 8)
         pool = [V.gen_value(rng, t)]
+        if t[0] in ('address', 'key', 'key_hash', 'signature') and rng.random() < 0.7:
+            from c14 import mixed_kinds      # kinds / curves / notations mixed in one set (text order != Michelson order)
+            pool = mixed_kinds(rng, t, min(k, 6)) or pool
         while len(pool) < k:
             pool.append(V.mutate(rng, t, rng.choice(pool)) if rng.random() < 0.75 else V.gen_value(rng, t))
         ups = [(rng.choice(pool), rng.random() < 0.8) for _ in range(rng.randrange(k, 2 * k + 2))]
